@@ -158,6 +158,7 @@ SPEC = {
         "resolveGLazy_eq_resolveG", "resolveGLazy_perm", "resolveT_perm", "resolveTLazy_eq_resolveT",
         "template_twin_is_ambiguous", "template_literal_deduces_int", "template_const_vector_argument",
         "explicit_args_exclude_plain_functions", "template_vector_of_vector_panics",
+        "template_param_matches_exactly", "simple_templates_never_panic", "unique_exact_selectedT",
         # the source text of the transcribed routines, re-extracted each run
         "resolve_shape_as_modelled", "resolve_source_as_transcribed"]],
     "harness": "c16",
